@@ -54,6 +54,8 @@ func init() {
 			// (they are fresh for every call), with literal options, and with a variable holding them
 			`<%= optlen() %>|<%= optlen() %>|<%= optlen({a: 1}) %>`, `<% let o = {} %><%= optlen(o) %><%= optlen(o) %>|<%= optlen() %>`,
 			`<%= for (i) in [1, 2] { %><%= optlen() %><% } %>`,
+			// a loop over a map whose body adds an entry: the entries of the loop are those present when it starts
+			`<%= for (k, v) in mi { %><% mi["z"] = 2 %>[<%= k %>=<%= v %>]<% } %>|<%= len(mi) %>`, `<%= for (k, v) in mi { %><% mi["a" + k] = 1 %><% mi["b" + k] = 1 %><%= k %>;<% } %>`,
 			// a function value is opaque: the template cannot reach the parsed program through it
 			`<% let f = fn(a, b) { return a } %><%= f(1, 2) %>|<%= f %>`, `<% let f = fn(a, b) { return a } %><%= f(1, 2) %><% let p = f.Parameters %><% p[0] = p[1] %>`,
 			`<% let f = fn(a) { return a } %><% let b = f.Block %><%= b %>`,
